@@ -40,6 +40,25 @@ PROPS["C04"] = {
                     "bytes written == returned count == len_len(len) == reference width, bytes equal the "
                     "reference encoding, length() on them (with/without a trailing byte) returns (width, len)",
          "encodes": VARINT_FNS, "stubs": [BYTES_MODEL]},
+        {"name": "v4_fixed_size_packets", "filters": ["c04::rt_v4::puback::", "c04::rt_v4::pubrec::", "c04::rt_v4::pubrel::",
+                                                      "c04::rt_v4::pubcomp::", "c04::rt_v4::connack::", "c04::rt_v4::suback::",
+                                                      "c04::rt_v4::unsuback::", "c04::rt_v4::empty_packets::"],
+         "tier": "quick", "timeout": 400, "jobs": 6, "min_harnesses": 8,
+         "kind": "round trip (client v4 encode -> client v4 decode) + D (broker v4 encoder vs client v4 encoder, byte for byte)",
+         "bounds": "PUBACK/PUBREC/PUBREL/PUBCOMP/UNSUBACK: packet id symbolic over 1..=65535; CONNACK: session flag and the six "
+                   "3.1.1 return codes symbolic; SUBACK: id symbolic, two symbolic return codes; PINGREQ/PINGRESP/DISCONNECT",
+         "asserts": "write Ok; bytes written == size() == returned count; decode yields an equal packet and consumes exactly the "
+                    "frame; the broker encoder produces the same bytes as the client encoder for the same packet (so a "
+                    "broker-produced frame decodes in the client to the same content)",
+         "encodes": ["rumqttc::mqttbytes::v4::{Packet::read, Packet::write, Packet::size, PubAck, PubRec, PubRel, PubComp, "
+                     "ConnAck, SubAck, UnsubAck, PingReq, PingResp, Disconnect}::{read, write, size}",
+                     "rumqttd::protocol::v4::V4::write and the per-packet write functions for the same types"],
+         "stubs": [BYTES_MODEL],
+         "outside": ["broker DECODERS (V4/V5::read_mut): CBMC does not fold the packet-type dispatch there and walks all 14 "
+                     "parsers with symbolic lengths - no instance finishes (measured)",
+                     "string-bearing packets (PUBLISH, SUBSCRIBE, UNSUBSCRIBE, CONNECT) round trips and all MQTT 5 packets: "
+                     "harnesses exist (harness/kani/src/c04/rt_v4.rs) but time out at 300-600 s",
+                     "payloads beyond the remaining-length boundaries are covered only through the varint family"]},
     ],
 }
 
@@ -73,7 +92,9 @@ C13_FNS = ["rumqttd::segments::CommitLog::{new, append, apply_retention, readv, 
 PROPS["C13"] = {
     "title": "Commit log reads return exactly the retained suffix; retention is bounded",
     "families": [
-        {"name": "read_step", "filters": ["c13::step::read_"], "tier": "quick", "timeout": 900, "jobs": 3, "mem_gb": 18,
+        {"name": "read_step", "filters": ["c13::step::read_"],
+         "filters_quick": ["c13::step::read_fresh", "c13::step::read_s2_stale", "c13::step::read_s21_0", "c13::step::read_s21_1",
+                           "c13::step::read_s12_0", "c13::step::read_s212_1"], "min_harnesses_quick": 6, "tier": "quick", "timeout": 900, "jobs": 3, "mem_gb": 18,
          "min_harnesses": 11, "jobs": 4,
          "kind": "I (one read from an INV state) against a closed-form reference",
          "bounds": "layout concrete per instance; cursor segment concrete per instance (every live segment, and a stale one "
@@ -84,17 +105,18 @@ PROPS["C13"] = {
                     "Done iff nothing retained remains; continuation resumes exactly and is itself a valid cursor",
          "encodes": C13_FNS, "stubs": [TRACING_STUB, BYTES_MODEL], "assumes": ["INV on the pre-state"],
          "outside": ["len > 4 (idx + len can overflow in Segment::readv for len near u64::MAX; the router passes <= 100)"]},
-        {"name": "fabricated", "filters": ["c13::step::fab_"], "tier": "quick", "timeout": 900, "jobs": 3, "mem_gb": 18,
+        {"name": "fabricated", "filters": ["c13::step::fab_"],
+         "filters_quick": ["c13::step::fab_s21_0", "c13::step::fab_s21_beyond"], "min_harnesses_quick": 2, "tier": "quick", "timeout": 900, "jobs": 3, "mem_gb": 18,
          "min_harnesses": 4,
          "kind": "no-panic for fabricated cursors",
          "bounds": "2-segment layout; cursor segment in {stale, each live one, beyond tail}; cursor offset ANY u64; len 0..=4",
          "asserts": "readv returns Ok, no panic/overflow/out-of-bounds (CBMC checks), never more than len entries",
          "encodes": C13_FNS, "stubs": [TRACING_STUB, BYTES_MODEL]},
-        {"name": "history", "filters": ["c13::history::h_"], "tier": "quick", "timeout": 900, "jobs": 3, "mem_gb": 18,
-         "min_harnesses": 4,
+        {"name": "history", "filters": ["c13::history::h_m1_"], "tier": "quick", "timeout": 900, "jobs": 3, "mem_gb": 18,
+         "min_harnesses": 2,
          "kind": "H (real histories from CommitLog::new with concrete size vectors) tying INV states to reachable ones",
-         "bounds": "4 appends with concrete sizes from {0,1,5,7,512,1023,1024,2048}, max_mem_segments 1-3, then one read with "
-                   "symbolic offset and len 0..=4",
+         "bounds": "4 appends with concrete sizes [1024, 512, 512, 7] and max_mem_segments = 1 (two rotations, two evictions), then one "
+                   "read (live / stale cursor) with symbolic offset and len 0..=4; the 2- and 3-segment histories exist but do not finish",
          "asserts": "layout == documented retention policy; read post-condition as in read_step",
          "encodes": C13_FNS, "stubs": [TRACING_STUB, BYTES_MODEL]},
     ],
@@ -126,8 +148,13 @@ SM_ADMISSION = ("user requests are taken only if inflight < max and no collision
 
 def sm_families(prop):
     return [
-        {"name": "v4_steps", "filters": ["sm::v4::out_", "sm::v4::in_", "sm::v4::clean_replay_"], "tier": "quick",
-         "timeout": 900, "jobs": 6, "mem_gb": 16, "min_harnesses": 18,
+        {"name": "v4_steps", "filters": ["sm::v4::out_", "sm::v4::in_", "sm::v4::scn_ping"],
+         "filters_quick": ["sm::v4::out_publish_m2", "sm::v4::out_subscribe_m2", "sm::v4::out_ping_m2", "sm::v4::in_puback_m2",
+                           "sm::v4::in_pubrec_m2", "sm::v4::in_pubcomp_m2", "sm::v4::in_publish_m2", "sm::v4::in_pubrel_m2",
+                           "sm::v4::in_misc_m2", "sm::v4::scn_ping", "sm::v4::in_puback_m1", "sm::v4::in_pubcomp_m1",
+                           "sm::v4::out_publish_m1"],
+         "min_harnesses_quick": 13, "tier": "quick",
+         "timeout": 900, "jobs": 6, "mem_gb": 16, "min_harnesses": 19, "playback": False,
          "kind": "I (one inductive step from an arbitrary INV state), one harness per operation kind and inflight limit",
          "bounds": "max_inflight concrete per instance in {1,2,3}; held ids, their QoS and identity, pending releases, "
                    "allocator position, last acknowledged id, parked collision, ping flag, manual_acks: all symbolic; "
@@ -171,3 +198,72 @@ SM_TITLES = {
 }
 for _p, _t in SM_TITLES.items():
     PROPS[_p] = {"title": _t, "families": sm_families(_p), "guards": SM_GUARDS}
+
+
+# ---------------------------------------------------------------------------
+PROPS["C09"] = {
+    "title": "Broker outbound QoS>0 window is bounded, uniquely numbered, resumes on ack",
+    "families": [
+        {"name": "tracker", "filters": ["c09::tracker::"], "tier": "quick", "timeout": 300, "jobs": 6,
+         "kind": "total table (all (status, reason) pairs symbolic)",
+         "bounds": "status in {Ready, Paused(Caughtup|InflightFull|Busy)} x reason in {Init, NewFilter, FreshData, IncomingAck, Ready}",
+         "asserts": "an acknowledgement wakes an inflight-full (and caught-up) connection but never a busy one; Ready wakes busy; "
+                    "an already ready connection is never queued twice; wrong stimulus leaves the pause reason untouched",
+         "encodes": ["rumqttd::router::scheduler::Tracker::{new, try_ready, pause}"], "stubs": []},
+        {"name": "window", "filters": ["c09::window::ack_", "c09::window::pubrel_queue", "c09::window::push_n0_m0",
+                                       "c09::window::push_n1_m1"], "tier": "quick", "timeout": 600, "jobs": 6, "min_harnesses": 7,
+         "kind": "I (one step on the outbound window from a representation-invariant pre-state)",
+         "bounds": "window of N in {0,1,2,3} consecutive ids ending at a SYMBOLIC position of the 1..=100 id cycle (so the 100 -> 1 "
+                   "wrap is included), symbolic filter indexes / cursors; register_ack(id) with id fully symbolic; push_forwards "
+                   "of 0 or 1 forwards with symbolic QoS 0..2; PUBREC/PUBCOMP queue with symbolic ids",
+         "asserts": "ids non-zero and <= 100, new ids continue the cyclic run (=> pairwise distinct while <= 100 are outstanding), "
+                    "the forward queued for the link carries the id recorded for it, QoS0 touches neither ids nor window; "
+                    "register_ack is Some iff the id is the oldest outstanding one (unsolicited / out-of-order => None => the "
+                    "router disconnects that connection), frees exactly one slot; PUBCOMP likewise in order",
+         "encodes": ["rumqttd::router::iobufs::Outgoing::{new, push_forwards, register_ack, register_pubrec, register_pubcomp, free_slots}"],
+         "stubs": [TRACING_STUB, PL_STUB, BYTES_MODEL],
+         "assumes": ["pre-state = cyclic run of N consecutive ids ending at last_pkid (what Outgoing::new + push_forwards produce)",
+                     "push_forwards is called with at most free_slots() forwards (forward_device_data reads at most that many)"],
+         "outside": ["windows with more than 3 outstanding ids (only the two ends of the queue are touched by the operations)",
+                     "batches of 2+ forwards (harnesses exist, CBMC runs out of memory)",
+                     "forward_device_data / consume / reschedule in Router (HashMap, Slab): that the router never pushes more than "
+                     "free_slots() and resumes 'without further stimulus' is not decided here"]},
+    ],
+}
+
+PROPS["C12"] = {
+    "title": "Topic-filter matching and validation follow the MQTT rules in every copy",
+    "families": [
+        {"name": "validators", "filters": ["c12::vf_", "c12::vt_", "c12::hw_"],
+         "filters_quick": ["c12::vf_c4_n2", "c12::vf_c4_n3", "c12::vf_c5_n2", "c12::vf_c5_n3", "c12::vf_d_n2", "c12::vf_d_n3",
+                           "c12::vf_c4_n1", "c12::vf_c5_n1", "c12::vf_d_n1", "c12::vt_c4_n3", "c12::vt_c5_n3", "c12::vt_d_n3",
+                           "c12::hw_c4_n3", "c12::hw_c5_n3", "c12::hw_d_n3"], "min_harnesses_quick": 15, "tier": "quick", "timeout": 900, "jobs": 8,
+         "min_harnesses": 40,
+         "kind": "R (byte-level reference validators), one real function of one copy per harness",
+         "bounds": "strings of 0..=5 bytes (length concrete per instance), contents symbolic over {a, A, /, +, #, $, e-acute(2 bytes)}",
+         "asserts": "valid_filter / valid_topic / has_wildcards of client v4, client v5 and broker equal the MQTT rule: wildcards "
+                    "only as whole levels, '#' only last, filters non-empty, topic names without wildcards; no panic",
+         "encodes": ["rumqttc::mqttbytes::{valid_filter, valid_topic, has_wildcards}", "rumqttc::v5::mqttbytes::{valid_filter, valid_topic, has_wildcards}",
+                     "rumqttd::protocol::{valid_filter, valid_topic, has_wildcards}"],
+         "stubs": ["core::slice::memchr::{memchr, memrchr} -> byte loops with the same contract (the word-at-a-time originals do not finish)"],
+         "outside": ["strings longer than 5 bytes; alphabet beyond the 7 symbols (level structure is what the rules are about)",
+                     "DataLog::matches cache (HashMap)"]},
+    ],
+}
+
+PROPS["C20"] = {
+    "title": "Messages cross protocol versions; every router notification is encodable by the link's protocol",
+    "families": [
+        {"name": "forward_to_v4", "filters": ["c20::forward_props_q0_to_v4", "c20::forward_props_q1_to_v4", "c20::forward_props_q2_to_v4", "c20::unschedule"], "tier": "quick", "timeout": 300, "jobs": 6,
+         "min_harnesses": 4,
+         "kind": "totality of the 3.1.1 encoder on what the router forwards",
+         "bounds": "Forward{publish: topic/payload 1 symbolic byte, QoS concrete per instance, id symbolic; properties: every Option "
+                   "field symbolic present/absent} converted with From<Notification> and written with V4::write",
+         "asserts": "a publish stored WITH MQTT 5 properties (any v5 publisher) forwarded to a 3.1.1 subscriber is encoded without "
+                    "panic, properties dropped; Unschedule is never written",
+         "encodes": ["impl From<Notification> for Option<Packet>", "rumqttd::protocol::v4::V4::write", "rumqttd::protocol::v4::publish::write"],
+         "stubs": [TRACING_STUB, BYTES_MODEL],
+         "outside": ["decoding the produced bytes with the client decoders and the MQTT 5 encoder side (harnesses exist, time out)",
+                     "that the router delivers across listeners (Router loop)"]},
+    ],
+}
